@@ -19,6 +19,7 @@ pub mod c15;
 pub mod c16;
 pub mod c17;
 pub mod c18;
+pub mod c19;
 pub mod c20;
 
 macro_rules! dispatch {
@@ -42,6 +43,7 @@ macro_rules! dispatch {
             "C16" => $f(c16::C16, $($arg),*),
             "C17" => $f(c17::C17, $($arg),*),
             "C18" => $f(c18::C18, $($arg),*),
+            "C19" => $f(c19::C19, $($arg),*),
             "C20" => $f(c20::C20, $($arg),*),
             other => {
                 eprintln!("unknown property {}", other);
